@@ -376,6 +376,7 @@ fn main() {
     }
     let n = cx.id;
     file.flush().unwrap();
+    vharness::evalx::exit_on_build_failures("c11");
     eprintln!("c11 {which}: {n} records over {} programs", progs.len());
     let _ = (BulkEvaluator::new as fn() -> <VmFunction as Function>::FloatSliceEval, TracingEvaluator::new as fn() -> <VmFunction as Function>::PointEval);
 }
